@@ -215,6 +215,7 @@ func ReadGFF(f io.Reader) (GFF, error) {
 	var err error
 
 	s := bufio.NewScanner(f)
+	s.Buffer(make([]byte, 0), fastaio.MaxLineLength) // (the ##FASTA section may hold a genome on one line)
 	for s.Scan() {
 		line := s.Text()
 		if inFasta {
@@ -245,6 +246,11 @@ func ReadGFF(f io.Reader) (GFF, error) {
 			}
 			features = append(features, feature)
 		}
+	}
+
+	// a read error (or a line that can't be held) is not the end of the file
+	if err = s.Err(); err != nil {
+		return gff, err
 	}
 
 	gff.Features = features
